@@ -62,9 +62,14 @@ def run_config(cfg, strategy=None, want_choices=False):
         fail = cfg.get('fail', {}).get(name, 'none')
         body = {}
         for k, t in enumerate(targets):
-            body[f'att{k}'] = Attached(Other if (name, t) in wrong else Module, mandatory=True)
+            # cfg['opt']: the attachments are declared optional (mandatory=False) - a configured optional
+            # attachment has to be resolved, checked and ordered exactly like a mandatory one
+            body[f'att{k}'] = Attached(Other if (name, t) in wrong else Module, mandatory=not cfg.get('opt'))
+        body['spare'] = Attached(mandatory=False)      # an optional attachment nobody configures: stays None
 
         def look(self):
+            if self.spare is not None:
+                ev(ev='crash', exc='an optional attachment that was not configured is not None')
             for k, t in enumerate(targets):
                 o = getattr(self, f'att{k}')
                 ev(ev='attach', u=name, t=t, inited=bool(getattr(o, 'initModuleDone', False)))
